@@ -371,10 +371,34 @@ func c10Unusable(s *sut.SUT, c *ev.Check, g *gen.Gen) {
 		cmds = append(cmds, sut.AgentCmd{"op": "set", "replacement": "REDACTED", "numbers": false, "booleans": false, "ips": false, "namespaces": false, "eager": []string{}, "regexp": "", "encrypt": true, "key_b64": k.b64},
 			sut.AgentCmd{"op": "redact", "lines": lines})
 	}
+	// afterwards, in the SAME process, a usable key: the earlier failures must leave no trace —
+	// the output must be what a fresh process with that key gives (deterministic across processes)
+	valid := []sut.AgentCmd{{"op": "set", "replacement": "REDACTED", "numbers": false, "booleans": false, "ips": false, "namespaces": false, "eager": []string{}, "regexp": "", "encrypt": true, "key_b64": TestKeyB64},
+		{"op": "redact", "lines": lines}}
+	cmds = append(cmds, valid...)
 	recs, crashed, res, err := s.Agent(cmds, nil, 0)
 	if err != nil || crashed >= 0 {
 		c.Inconclusive("agent (unusable keys) failed: " + short(res.Stderr, 300))
 		return
+	}
+	if fresh, crashed2, res2, err2 := s.Agent(valid, nil, 0); err2 != nil || crashed2 >= 0 {
+		c.Inconclusive("agent (fresh process, valid key) failed: " + short(res2.Stderr, 300))
+	} else {
+		a, _ := recs[len(recs)-1]["outs"].([]any)
+		b, _ := fresh[1]["outs"].([]any)
+		for i := range lines {
+			if i >= len(a) || i >= len(b) {
+				break
+			}
+			ma, _ := a[i].(map[string]any)
+			mb, _ := b[i].(map[string]any)
+			c.Count("lines_compared_after_unusable_key_history", 1)
+			if fmt.Sprint(ma["out"]) != fmt.Sprint(mb["out"]) {
+				c.Violation("key-history-dependent", fmt.Sprintf("encrypt-mode output with a valid key differs between a fresh process and a process that was handed unusable key material before: %s vs %s", trunc(fmt.Sprint(mb["out"]), 200), trunc(fmt.Sprint(ma["out"]), 200)),
+					map[string]any{"input": lines[i], "fresh_process": mb["out"], "after_unusable_keys": ma["out"]})
+				break
+			}
+		}
 	}
 	for ki, k := range kms {
 		outs, _ := recs[2*ki+1]["outs"].([]any)
